@@ -343,7 +343,9 @@ def snip_toplevel_misc(rng, u, k, tags):
     if r() < 0.3:
         t += "#[test(tb%s_%d)]\nmodule tb%s_%d {\n    initial {\n        $display(\"tb\");\n    }\n}\n" % (u, k, u, k)
         tags.update(["test", "module", "initial"])
-    if r() < 0.3:
+    if r() < 0.3 and str(u).endswith("0"):
+        # anonymous file-level embeds are named embed@<n> per file: two files with one each collide
+        # (duplicated_identifier), so only the first file of a project gets one
         t += "embed (inline) sv{{{\nmodule raw%s_%d; endmodule\n}}}\n" % (u, k)
         tags.add("embed")
     return t
